@@ -946,13 +946,17 @@ fn parents(
 ) -> Vec<anyhow::Result<SignedEntry>> {
     let mut res = Vec::new();
 
-    while !key.is_empty() {
+    // Walk from the key itself down to (and including) the empty key: the empty key is a
+    // prefix of every key.
+    loop {
         let entry = get_exact(table, namespace, author, &key, false);
-        key.pop();
         match entry {
             Err(err) => res.push(Err(err)),
             Ok(Some(entry)) => res.push(Ok(entry)),
-            Ok(None) => continue,
+            Ok(None) => {}
+        }
+        if key.pop().is_none() {
+            break;
         }
     }
     res.reverse();
